@@ -56,6 +56,8 @@ func C06Print(v any) string {
 		return t
 	case int:
 		return strconv.Itoa(t)
+	case float64: // integral values beyond the int64 range: all their digits
+		return strconv.FormatFloat(t, 'f', -1, 64)
 	}
 	return ""
 }
@@ -106,11 +108,19 @@ func C06Derep(recs []C06Rec, o C06Opts) (all, kept map[string]*C06Class) {
 				}
 				continue
 			}
-			if v, ok := r.Attrs[k]; ok {
-				cl.Merged[k][C06Print(v)] += r.C06Weight()
+			// a descriptor "key:weight" sums the integer attribute `weight` (0 when absent) instead of the count
+			attr, weight := k, r.C06Weight()
+			if i := strings.IndexByte(k, ':'); i >= 0 {
+				attr, weight = k[:i], 0
+				if wv, ok := r.Attrs[k[i+1:]].(int); ok {
+					weight = wv
+				}
+			}
+			if v, ok := r.Attrs[attr]; ok {
+				cl.Merged[k][C06Print(v)] += weight
 			} else {
 				cl.Missing[k] = true
-				cl.Merged[k][o.NA] += r.C06Weight()
+				cl.Merged[k][o.NA] += weight
 			}
 		}
 	}
